@@ -1,11 +1,18 @@
-(* The only file with extraction directives.  ExtrOcamlBasic maps bool/option/unit/prod/list/sumbool/sumor/comparison
-   to OCaml's; numbers stay Coq datatypes.  No Extract Constant. *)
+(* The only file with extraction directives.  ExtrOcamlBasic maps bool/option/unit/prod/list/sumbool/sumor to OCaml's;
+   numbers stay Coq datatypes.  No Extract Constant.  One self-contained OCaml file per area (each has its own copy of
+   the number types; ocaml/util.ml is a functor over them), so names of different areas never clash. *)
 Require Extraction.
 Require Import ExtrOcamlBasic.
+From QV.Base Require Res.
 From QV.Enc Require EncModel EncSpec.
 From QV.Tree Require TreeModel QTree TreeSpec.
+From QV.Harr Require HarrModel HarrSpec.
 Extraction Blacklist List String Int.
-Extraction "../ocaml/gen/model.ml" EncModel.url_encode EncModel.url_dec_buf EncModel.url_decode EncModel.hex_encode EncModel.hex_dec_buf EncModel.hex_decode
+Extraction "../ocaml/gen/enc_model.ml" Res.num_anchor
+   EncModel.url_encode EncModel.url_dec_buf EncModel.url_decode EncModel.hex_encode EncModel.hex_dec_buf EncModel.hex_decode
    EncModel.b64_encode EncModel.b64_dec_buf EncModel.b64_decode EncModel.parse_queries EncModel.join_query EncModel.makeword EncModel.trim
-   EncSpec.rfc4648 EncSpec.hex_spec EncSpec.url_safe
+   EncSpec.rfc4648 EncSpec.hex_spec EncSpec.url_safe.
+Extraction "../ocaml/gen/tree_model.ml" Res.num_anchor
    TreeModel.check_model TreeModel.find_cost TreeModel.elements QTree.byte_cmp QTree.init QTree.step QTree.ncmp QTree.probe TreeSpec.sstep TreeSpec.sinit.
+Extraction "../ocaml/gen/harr_model.ml" Res.num_anchor
+   HarrModel.init HarrModel.xstep HarrModel.getS HarrModel.get HarrSpec.sstep HarrSpec.aused HarrSpec.adel HarrSpec.aget.
